@@ -44,7 +44,9 @@ func (g *c12Gen) w(format string, a ...interface{}) {
 
 // val: the value stored by the next write — mostly a fresh number, one time
 // in four a value of another kind (a property holding nil is still a property).
-var c12OddVals = []string{"nil", bn.KwFalse, "f()", "0", bn.KwTrue, "\"s\"", "0.5", "((1 << 62) | 1)", "(~(1 << 63))", "(-0)", "(2 ** 1024)"}
+var c12OddVals = []string{"nil", bn.KwFalse, "f()", "0", bn.KwTrue, "\"s\"", "0.5", "((1 << 62) | 1)", "(~(1 << 63))", "(-0)", "(2 ** 1024)",
+	// variables named like property names: a property is not a variable, inside a literal or anywhere else
+	"k", "v", "name", "(k + n2)", "(v = v + 1)"}
 
 func (g *c12Gen) val() (string, gVal) {
 	if g.pick("valKind", 4) != 1 {
@@ -235,6 +237,7 @@ var c12Faults = []string{"%s.absent", "%s.absent.deeper", "%s.absent = %s.absent
 func (g *c12Gen) program(nActions, fault int) string {
 	g.vars = map[string]*gObj{}
 	g.names = []string{"P", "Q", "R"}
+	g.w("%s k = 70, v = 71, name = 72, n2 = 73;", bn.KwVar)
 	g.w("%s setk(o, v) { o.k = v; }", bn.KwFun)
 	g.w("%s f() { }", bn.KwFun)
 	g.w("%s box = [nil];", bn.KwVar)
@@ -412,6 +415,10 @@ func TestC12(t *testing.T) {
 		if c.Thorough {
 			n = 30000
 		}
+		c.Rapid("self-containing-unprinted", n/4, func(rt *rapid.T, s *Sub) {
+			src, nt := cyclicProgram(rt, true)
+			c.c12Program(s, "self-containing-unprinted", src, nt, "cyclic-objects")
+		})
 		c.Rapid("rand-histories", n, func(rt *rapid.T, s *Sub) {
 			g := &c12Gen{pick: func(label string, n int) int { return rapid.IntRange(0, n-1).Draw(rt, label) }}
 			fault := -1
